@@ -475,6 +475,12 @@ def monitor(blocked, msgs, obs):
                             else:
                                 names = ['private', 'users', 'joined', 'tickers', 'members', 'owner', 'operators']
                                 what = f'room {r} ' + ','.join(n for n, x, y in zip(names, a, b) if x != y)
+                    if what == 'view':
+                        for u in USERS:
+                            a, b = iv['users'].get(u), rv['users'].get(u)
+                            if a != b:
+                                names = ['status', 'stats', 'privileged']
+                                what = f'user {u} ' + (','.join(n for n, x, y in zip(names, a or [], b or []) if x != y) or 'known')
                     first = (i, what, iv, rv)
         if iv != _norm(quirk.view()):
             quirk_ok = False
